@@ -28,6 +28,7 @@ class Machine:
 
     def __init__(self, tag="m"):
         self.I, self.F, self.arcs = [], [], []
+        self.methods = []     # 'add_arc' (accumulates) / 'set_arc' (overwrites) per recorded arc
         self.tag = tag
         self.fields = {}
 
@@ -37,7 +38,7 @@ class Machine:
         if nm in ("add_F", "set_F"):
             return I.Native(nm, lambda it, a, k: self.F.append(tuple(a)))
         if nm in ("add_arc", "set_arc"):
-            return I.Native(nm, lambda it, a, k: self.arcs.append(tuple(a)))
+            return I.Native(nm, lambda it, a, k, nm=nm: (self.arcs.append(tuple(a)), self.methods.append(nm))[0])
         if nm in self.fields:
             return self.fields[nm]
         raise I.OutOfSubset(f"machine.{nm}")
@@ -577,9 +578,10 @@ def pruned_compose(run):
         seen = smt.prove(list(path.pc), cx["visited_new"])["verdict"] == "proved"
         pushed_new = [x for x in cx["pushed"] if isinstance(x, tuple) and x[0] is Pn]
         okP = (len(pushed_new) == 0) if seen else (len(pushed_new) == 1 and any(x[0] is Pn for x in cx["visited_added"]))
-        if not (okI and okF and okA and okP):
+        okM = all(x == "add_arc" for x in m.methods)     # parallel contributions to one composite arc must accumulate
+        if not (okI and okF and okA and okP and okM):
             ok = False
-            why = f"initial={okI} final={okF} arcs={okA} pushed-once={okP}: {whyI or whyF or whyA}"
+            why = f"initial={okI} final={okF} arcs={okA} pushed-once={okP} accumulates={okM}: {whyI or whyF or whyA}"
     if ok and results:
         run.obligation(name, "proved", role="auxiliary", backend="pyvc+z3", detail=f"{len(results)} paths: product initial/final weights, one arc per matching arc pair with weight w1*w2, targets pushed only when unvisited")
     else:
